@@ -188,6 +188,92 @@ func showCol(rows []frameRow, key portKey) string {
 
 // framesOracle checks the statement directly: every completed frame pairs the k-th request of a
 // port with the k-th answer of that same port (FIFO per port), every request has its frame.
+// openHookWindow recognises the known finding `open-hook-window` on the in-ports of one process:
+// InPort.Open publishes a new reader in the port's map before the open hooks have run, so a writer
+// opened on another goroutine can find it and deliver the process's FIRST packet of that port
+// before the agent's hook has attached its packet hooks. That request is not recorded, its answer is
+// (an orphan frame), and every later request fills the orphan left before it: with requests
+// R1 … Rn and answers A1 … An the port's frames are (R2,A1) (R3,A2) … (Rn,An-1) (-,An).
+// Exactly this and nothing else: same number of frames as answers, every one shifted by one from
+// the very first, the last one the orphan. The harness's own hook log may or may not hold R1 (its
+// hooks are attached just before the agent's); `strict` (schedules with Agent.Unload in them, where a
+// deleted first frame would look the same) accepts only the case in which it does not.
+func openHookWindow(t *tap, sess int, rows []frameRow, strict bool) []portKey {
+	var hit []portKey
+	for _, key := range t.keys {
+		if key.in < 0 {
+			continue
+		}
+		var fr []frameRow
+		for _, r := range rows {
+			if r.key == key {
+				fr = append(fr, r)
+			}
+		}
+		var reqs, answs []int
+		for _, e := range t.log {
+			if e.sess == sess && e.key == key {
+				if e.inb {
+					reqs = append(reqs, e.pck)
+				} else {
+					answs = append(answs, e.pck)
+				}
+			}
+		}
+		n := len(answs)
+		if n == 0 || len(fr) != n || fr[n-1].in != -1 || fr[n-1].out != answs[n-1] {
+			continue
+		}
+		var seen []int
+		switch {
+		case len(reqs) == n-1:
+			seen = reqs
+		case len(reqs) == n && !strict:
+			seen = reqs[1:]
+		default:
+			continue
+		}
+		ok := true
+		for i := 0; i < n-1; i++ {
+			if fr[i].in != seen[i] || fr[i].out != answs[i] {
+				ok = false
+			}
+		}
+		if ok {
+			hit = append(hit, key)
+		}
+	}
+	return hit
+}
+
+// withoutPorts: the rows and a copy of the tap restricted to the other ports of the session.
+func withoutPorts(t *tap, sess int, rows []frameRow, drop []portKey) (*tap, []frameRow) {
+	gone := map[portKey]bool{}
+	for _, k := range drop {
+		gone[k] = true
+	}
+	t2 := *t
+	t2.keys = nil
+	for _, k := range t.keys {
+		if !gone[k] {
+			t2.keys = append(t2.keys, k)
+		}
+	}
+	t2.log = nil
+	for _, e := range t.log {
+		if !(e.sess == sess && gone[e.key]) {
+			t2.log = append(t2.log, e)
+		}
+	}
+	var out []frameRow
+	for _, r := range rows {
+		if !gone[r.key] {
+			out = append(out, r)
+		}
+	}
+	return &t2, out
+}
+
 // dedupAdjacent drops a frame that repeats its predecessor on the same port (a symbol loaded twice
 // has two sets of hooks on the endpoints of processes that came later: every frame is recorded twice).
 func dedupAdjacent(rows []frameRow) []frameRow {
@@ -586,18 +672,34 @@ func framesCaseBody(c *lib.Ctx, fs flowSpec, nsess int, ops []op, early bool, sc
 			continue
 		}
 		rows := t.readFrames(f, agent, sr.s.proc)
+		tv := t // the tap as the oracles see it (without the ports on which the known finding struck)
+		window := openHookWindow(t, si, rows, lax)
+		if len(window) > 0 {
+			for _, row := range rows {
+				trace = append(trace, fmt.Sprintf("# frame sess=%d port=%v(%s) in=%s out=%s", si, row.key, t.names[row.key], pid(row.in), pid(row.out)))
+			}
+			var names []string
+			for _, k := range window {
+				names = append(names, fmt.Sprintf("%v (%s)", k, t.names[k]))
+			}
+			*fails = append(*fails, lib.OracleFail{Class: "open-hook-window", What: fmt.Sprintf("%v: process %d, in-port %s: the first request passed before the agent's packet hooks were attached (InPort.Open publishes the reader before the open hooks have run); it has no frame, its answer is an orphan frame and every later frame of the port pairs request k+1 with answer k", fs, si, strings.Join(names, ", ")), Replay: replay()})
+			c.Hit("frames-open-hook-window-hit")
+			tv, rows = withoutPorts(t, si, rows, window)
+		}
 		if lax {
 			// frames recorded twice (a symbol loaded twice) count once; a port the agent holds nothing
 			// for (unloaded before the process came) is not compared; the number of frames is not
 			rows = dedupAdjacent(rows)
-			for _, k := range t.keys {
+			for _, k := range tv.keys {
 				if col := showCol(rows, k); col != "0" {
 					sc.Op(fmt.Sprintf("col %d %v", si, k), col)
 				}
 			}
 		} else {
-			sc.Op(fmt.Sprintf("nframes %d", si), fmt.Sprint(len(rows)))
-			for _, k := range t.keys {
+			if len(window) == 0 {
+				sc.Op(fmt.Sprintf("nframes %d", si), fmt.Sprint(len(rows)))
+			}
+			for _, k := range tv.keys {
 				sc.Op(fmt.Sprintf("col %d %v", si, k), showCol(rows, k))
 			}
 		}
@@ -606,13 +708,13 @@ func framesCaseBody(c *lib.Ctx, fs flowSpec, nsess int, ops []op, early bool, sc
 		}
 		class, what := "", ""
 		if lax {
-			class, what = framesPairingOracle(t, si, rows)
+			class, what = framesPairingOracle(tv, si, rows)
 		} else {
-			class, what = framesOracle(t, si, rows, sr)
+			class, what = framesOracle(tv, si, rows, sr)
 		}
 		if class == "" && !lax {
 			// watcher events: one for every request and one for every answer that passed an observed port
-			want := 0
+			want := -len(window) // (the unrecorded first request of a window port was shown to nobody)
 			for _, k := range t.keys {
 				want += 2 * sr.ip.reqs[portReq{k.sym, k.in < 0, t.names[k]}]
 			}
